@@ -70,8 +70,36 @@ def classify(doc, prep, o):
     return None
 
 
+def listing_vs_stream(d, prep):
+    """The stream JASM built differs from the instruction list of the synthetic listing (never observed on the pinned tree).
+    Judge it at the level of this property: a one-item rule made from the first differing instruction must be reported at
+    exactly the addresses where the LISTING contains it."""
+    from jv import real as R, stream as S
+    ctx = d.ctx
+    try:
+        dec = S.decode(prep.stream) if prep.stream is not None else []
+    except S.StreamError:
+        dec = []
+    n = next((i for i, (a, b) in enumerate(zip(dec, prep.expect)) if a != b), min(len(dec), len(prep.expect)))
+    if n >= len(prep.expect):
+        return
+    addr, mnem, ops = prep.expect[n]
+    names = [o for o in ops if RG.clean(o)]
+    item = {mnem: names} if names and len(names) == len(ops) else mnem
+    doc = {"config": {"mnemonics-full-match": True, "operands-full-match": True}, "pattern": [item]}
+    text = R.dump_rule(doc)
+    want = [a for a, m, o in prep.expect if m == mnem and (item == mnem or list(o[:len(names)]) == names)]
+    r = R.match(d.ws.write("pd.yaml", text), prep.path, ret="list", search="all", only_addr=True)
+    ctx.ran()
+    if r[0] != "ok" or list(r[1]) != want:
+        ctx.disagreement({"rule": text, "listing": prep.text, "sinsts": [[s.addr, s.mnem, s.ops, s.annotation, s.comment, s.nbytes] for s in prep.sinsts],
+                          "desc": "listing-vs-stream"},
+                         f"the listing contains {item} at {want[:6]} but all-matches reports {str(r[1])[:120]} ({prep.why})")
+
+
 def run_shard(ctx):
-    d = drive.Driver(ctx, feat, flags="all4", styles=("mixed", "runs", "dups", "regs"), classify=classify)
+    d = drive.Driver(ctx, feat, flags="all4", styles=("mixed", "runs", "dups", "regs", "multisec"), classify=classify)
+    d.on_parser_disagreement = listing_vs_stream
     d.loop(2000, 250000)
     hexh_stratum(ctx, d, ctx.share(96, 8000))
 
